@@ -1,6 +1,7 @@
 package props
 
 import (
+	"regexp"
 	"context"
 	"fmt"
 	"math"
@@ -537,6 +538,36 @@ func c14Flags(c *core.Case, o *core.Outcome) {
 					o.Violate("flags-ramp-unit:"+desc, "ramp accepted with start-rate %q (per %v) and end-rate %q (per %v) and ticks every %v: one of the rates does not mean what it spells (%s)", set["start-rate"], su, set["end-rate"], eu, rr.IterationDuration, desc)
 					return
 				}
+			}
+		}
+		if pr, has := set["peak-rate"]; name == "gaussian" && has && pr != "" && trig != nil {
+			// a peak rate given on the command line decides the volume: n per unit (per second: n/unit) times the
+			// area under the unit-height bell sampled once per second of a day - whatever --volume says; a string
+			// that is no rate cannot have been accepted
+			pn, pu, pok := c14RefParse(pr)
+			pd, _ := time.ParseDuration(set["peak"])
+			sd, _ := time.ParseDuration(set["standard-deviation"])
+			if !pok {
+				if _, _, perr := rate.ParseRate(pr); perr != nil {
+					o.Violate("flags-peak-rate-accepted:"+desc, "--peak-rate %q is not a rate (%v) and the flags were accepted all the same (%s)", pr, perr, desc)
+					return
+				}
+			} else if sd > 0 {
+				bell := 0.0
+				for x := 0; x < 86400; x++ {
+					z := (float64(x) - pd.Seconds()) / sd.Seconds()
+					bell += math.Exp(-z * z / 2)
+				}
+				want := math.Round(float64(pn) / pu.Seconds() * bell)
+				var got float64 = math.NaN()
+				if m := regexp.MustCompile(`triggering (-?\d+) iterations per`).FindStringSubmatch(trig.Description); m != nil {
+					got, _ = strconv.ParseFloat(m[1], 64)
+				}
+				if want < 9e18 && math.Abs(got-want) > 1+1e-9*want {
+					o.Violate("flags-peak-rate-meaning:"+desc, "--peak-rate %q spells %d per %v: with peak %v and standard deviation %v that is a volume of %.0f; the trigger describes itself as %q (%s)", pr, pn, pu, pd, sd, want, trig.Description, desc)
+					return
+				}
+				o.AddObs("peak_rate_flags_checked", 1)
 			}
 		}
 		if trig == nil || trig.Trigger == nil || trig.DryRun == nil {
